@@ -428,6 +428,8 @@ def from_numpy(a):
 def as_sarr(x, dtype=None):
     if isinstance(x, SArr):
         return x
+    if getattr(x, "_pyvc_series", False):       # a pandas column (A-PANDAS): its values
+        return x.arr
     if isinstance(x, SV) or is_z3(x):
         t = term(x)
         dt = np.dtype(bool) if z3.is_bool(t) else np.dtype("int64") if z3.is_int(t) else F64
@@ -708,7 +710,12 @@ def _int_index_array(i, n, what="index array"):
     ks = [z3.Int(fresh_name("k")) for _ in ia.shape]
     rng = z3.And(*[z3.And(k >= 0, k < T(d)) for k, d in zip(ks, ia.shape)]) if ks else z3.BoolVal(True)
     oblige("index.in_bounds", forall(ks, lambda: z3.Implies(rng, (lambda v: z3.And(v >= -nt, v < nt))(snap(tuple(ks))))), what)
-    return SArr(np.dtype("int64"), ia.shape, lambda idx: (lambda v: z3.If(v < 0, v + nt, v))(snap(idx)))
+    out = SArr(np.dtype("int64"), ia.shape, lambda idx: (lambda v: z3.If(v < 0, v + nt, v))(snap(idx)))
+    inv = getattr(ia, "inverse", None)
+    if inv is not None:
+        # a permutation produced by a sort specification: its values are in [0, n) (no negative index to normalise) and its inverse is known
+        out.inverse = inv
+    return out
 
 
 def _advanced_get(a, index, adv):
@@ -1244,6 +1251,27 @@ def reshape(a, newshape):
         strides.append(st)
         st = simp(st * T(d))
     strides = list(reversed(strides))
+
+    if len(oshape) == 2 and len(nshape) == 1 and conc(T(oshape[1])) is None and conc(T(oshape[0])) is None:
+        # flatten of an (N, M) array with both dims symbolic: f div M / f mod M are non linear.  Sound abstraction (A-NP-INDEX): uninterpreted
+        # row(f), col(f), flat(r, c) constrained only by facts that f div M, f mod M and r*M + c satisfy (ranges, mutual inverses)
+        rowf = z3.Function(fresh_name("flatrow"), z3.IntSort(), z3.IntSort())
+        colf = z3.Function(fresh_name("flatcol"), z3.IntSort(), z3.IntSort())
+        flatf = z3.Function(fresh_name("flatidx"), z3.IntSort(), z3.IntSort(), z3.IntSort())
+        N_, M_, tot = T(oshape[0]), T(oshape[1]), T(nshape[0])
+        f_, r_, c_ = z3.Int(fresh_name("f")), z3.Int(fresh_name("r")), z3.Int(fresh_name("c"))
+        note_fact(z3.ForAll([f_], z3.Implies(z3.And(f_ >= 0, f_ < tot), z3.And(rowf(f_) >= 0, rowf(f_) < N_, colf(f_) >= 0, colf(f_) < M_, flatf(rowf(f_), colf(f_)) == f_)), patterns=[rowf(f_)]),
+                  z3.ForAll([f_], z3.Implies(z3.And(f_ >= 0, f_ < tot), z3.And(rowf(f_) >= 0, rowf(f_) < N_, colf(f_) >= 0, colf(f_) < M_, flatf(rowf(f_), colf(f_)) == f_)), patterns=[colf(f_)]),
+                  z3.ForAll([r_, c_], z3.Implies(z3.And(r_ >= 0, r_ < N_, c_ >= 0, c_ < M_), z3.And(flatf(r_, c_) >= 0, flatf(r_, c_) < tot, rowf(flatf(r_, c_)) == r_, colf(flatf(r_, c_)) == c_)), patterns=[flatf(r_, c_)]))
+        r = SArr(a.dtype, nshape, lambda idx: s((rowf(idx[0]), colf(idx[0]))))
+        r.aliased = True
+        r.flat_of = {"row": rowf, "col": colf, "flat": flatf, "n": tot}
+        cx = cur()
+        if cx is not None:
+            if not hasattr(cx, "flatten_log"):
+                cx.flatten_log = []
+            cx.flatten_log.append(r.flat_of)
+        return r
 
     def elem(idx):
         flat = z3.IntVal(0)
